@@ -164,7 +164,7 @@ SPEC = {
         # vector layer (Thm/C01Vec.lean): shape-changing casts, swizzles, numeric constructors, component-wise operators
         "exporter_vec_shape_as_modelled", "swizzle_letters_are_identity", "vector_type_names_roundtrip",
         "vector_intrinsic_table_is_identity", "wide_constants_keep_kind_and_payload",
-        "gen_sem_vec_expr", "gen_sem_vec_expr_plain", "scalar_cast_then_widen_differs",
+        "gen_sem_vec_expr", "gen_sem_vec_expr_plain", "gen_sem_vec_assign", "scalar_cast_then_widen_differs",
         "dropping_inner_shape_cast_changes_meaning", "literal_vector_cast_panics"]] + [
         # the text leg (printing the exported tree and reading it back) is property C09's; its table obligations are
         # C01 obligations too: a change of the printer's precedence / associativity tables breaks them
@@ -204,14 +204,16 @@ SPEC = {
                   "generate_type's Vector arm is proved (gen_sem_vec_expr, mutual induction over VExpr / VSlots re-using sim_expr at "
                   "the scalar leaves) to emit a tree whose HLSL meaning (static types, usual arithmetic conversions extended to vectors, "
                   "splat / truncate / first-component conversions, flattening constructors, .xyzw/.rgba members) equals the IR value "
-                  "and scalar store for every value of the vector variables; swizzle letters, vector type names and the 11 vector-only "
+                  "and scalar store for every value of the vector variables; statement-level assignment and compound assignment to a "
+                  "vector variable or a swizzle of one (swizzle *write*) update the vector store identically (gen_sem_vec_assign); "
+                  "swizzle letters, vector type names and the 11 vector-only "
                   "built-in names are proved to round-trip; cast chains are proved not collapsible (scalar_cast_then_widen_differs, "
                   "dropping_inner_shape_cast_changes_meaning: the tree without the inner cast evaluates differently — seeded mutant "
                   "C01-2 also breaks exporter_vec_shape_as_modelled and exporter_shape_as_modelled). Operator, literal, intrinsic, "
                   "swizzle tables and the shapes of the arms are re-extracted from the source on every run; both models are compared "
                   "with the real exporter's trees and the Lean IR semantics with the harness's evaluators on generated programs. "
-                  "Partial with respect to the property's quantifier: the vector layer has no assignment to vectors / swizzles, no "
-                  "increment, matrices, structs, arrays, enums, methods, templates, default parameters, overloads, vector built-ins — "
+                  "Partial with respect to the property's quantifier: the vector layer has no assignment nested inside expressions, no "
+                  "increment of vectors, no matrices, structs, arrays, enums, methods, templates, default parameters, overloads, vector built-ins — "
                   "those are covered by the C01.vfn stream only (test, two independent evaluators, both flavours, bit-exact), as are "
                   "16/64-bit constants not at all; casts to a literal type are excluded (negation proved with a witness and replayed; "
                   "casts to a *vector* of a literal type panic the exporter: proved as literal_vector_cast_panics, known finding); "
@@ -238,7 +240,7 @@ SPEC = {
         "float arithmetic, int<->float conversions, integer division and every built-in function are abstract primitives shared by "
         "both semantics (component-wise application of the same primitive for vectors; vector built-ins uninterpreted)",
         "no recursion (HLSL forbids it): call depth bounded by the fuel of Ir.phi / Ast.phi",
-        "vector variables are not assigned inside an expression of the Lean vector layer (the layer has no vector assignment)",
+        "vector variables are assigned only by a statement-level assignment in the Lean vector layer (none nested in an expression)",
         "an `out` parameter is uninitialised on entry of the callee (both vector-stream evaluators); evaluation order left to right",
     ],
 }
